@@ -163,6 +163,12 @@ type devCfg struct {
 }
 
 func (c clientCfg) build(wrap func(uhppote.Driver) uhppote.Driver) (uhppote.IUHPPOTE, []uhppote.Device) {
+	devices := c.deviceList()
+	return c.buildFrom(devices, wrap), devices
+}
+
+// buildFrom: the client built from a device list the caller holds (and may look at again afterwards)
+func (c clientCfg) buildFrom(devices []uhppote.Device, wrap func(uhppote.Driver) uhppote.Driver) uhppote.IUHPPOTE {
 	bind := types.BindAddr{}
 	if c.Bind != "" {
 		bind = types.BindAddr{AddrPort: netip.MustParseAddrPort(c.Bind)}
@@ -175,6 +181,14 @@ func (c clientCfg) build(wrap func(uhppote.Driver) uhppote.Driver) (uhppote.IUHP
 	if c.Listen != "" {
 		ls = types.ListenAddr{AddrPort: netip.MustParseAddrPort(c.Listen)}
 	}
+	to := time.Duration(c.TimeoutMs) * time.Millisecond
+	if to == 0 {
+		to = 500 * time.Millisecond
+	}
+	return uhppote.NewUHPPOTEWithDriver(bind, bc, ls, to, devices, false, wrap)
+}
+
+func (c clientCfg) deviceList() []uhppote.Device {
 	devices := []uhppote.Device{}
 	for _, d := range c.Devices {
 		a := types.ControllerAddr{}
@@ -197,11 +211,7 @@ func (c clientCfg) build(wrap func(uhppote.Driver) uhppote.Driver) (uhppote.IUHP
 		}
 		devices = append(devices, uhppote.Device{Name: d.Name, DeviceID: d.Serial, Address: a, Doors: []string{"a", "b", "c", "d"}, TimeZone: tz, Protocol: d.Proto})
 	}
-	to := time.Duration(c.TimeoutMs) * time.Millisecond
-	if to == 0 {
-		to = 500 * time.Millisecond
-	}
-	return uhppote.NewUHPPOTEWithDriver(bind, bc, ls, to, devices, false, wrap), devices
+	return devices
 }
 
 func stubClient(c clientCfg) (uhppote.IUHPPOTE, *stubDriver) {
